@@ -40,18 +40,6 @@ Definition diagnose (trapkey : option N) (e o : observation) : verdict :=
   else if is_prefix (strip (fst o)) (strip (fst e)) && negb (trace_eqb (strip (fst e)) (strip (fst o))) then 6%N
   else 2%N.
 
-(* unordered observations: traces as sorted multisets *)
-Definition item_leb (a b : N * N) : bool :=
-  N.ltb (fst a) (fst b) || (N.eqb (fst a) (fst b) && N.leb (snd a) (snd b)).
-
-Fixpoint insert_item (x : N * N) (l : list (N * N)) : list (N * N) :=
-  match l with
-  | [] => [x]
-  | y :: l' => if item_leb x y then x :: l else y :: insert_item x l'
-  end.
-
-Definition sort_trace (l : list (N * N)) : list (N * N) := fold_right insert_item [] l.
-
 (* multiset inclusion of sorted lists *)
 Fixpoint sub_sorted (a b : list (N * N)) : bool :=
   match b with
